@@ -21,6 +21,11 @@ def long_names(text):
     return _SHORT.sub(r'\1_p', _SHORT_NUM.sub(r'\1x\2', text))
 
 
+def unicode_edge_names(text):
+    """Layout variant: identifiers that START and END with a non-ASCII letter (äKx0ß)."""
+    return re.sub(r'\b([A-Za-z])x(\d+)\b', r'ä\1x\2ß', text)
+
+
 def unicode_names(text):
     """Layout variant: the same identifiers with a non-ASCII letter inside (Kx0 -> Kéx0)."""
     return re.sub(r'\b([A-Za-z])x(\d+)\b', r'\1éx\2', text)
@@ -110,7 +115,7 @@ def s_none(p):
 # the name of the value's class where it can be written as an annotation / isinstance argument
 TNAME = {'inst': 'K0', 'int': 'int', 'str': 'str', 'list': 'list', 'dict': 'dict',
          'tuple': 'tuple'}
-MOVERS = {'import_mod', 'from_import', 'from_import_as', 'import_as', 'pkg_relative',
+MOVERS = {'star_chain', 'import_mod', 'from_import', 'from_import_as', 'import_as', 'pkg_relative',
           'pkg_init_reexport', 'star_import', 'pkg_prefix_sibling', 'pkg_self_import'}
 TYPED = set()      # carriers that need the type name in scope
 
@@ -840,6 +845,49 @@ def _(p, i):
 def _(p, i):
     p.add(f'def o{i}(q):\n    def inner(r=q):\n        return r\n    return inner()')
     p.expr = f'o{i}({p.expr})'
+
+
+# --- carriers added after the second wave of seeded changes
+
+@carrier('if_chain_keep', branching=True)
+def _(p, i):
+    # an undecidable first test, a statically false elif, a rebinding in else: the value bound
+    # before the chain survives at run time and must stay among the inferred ones
+    p.add(f'def unk{i}():\n    return len("ab") == 2')
+    p.add(f'DEBUG{i} = False')
+    p.add(f'v{i} = {p.expr}')
+    p.add(f'if unk{i}():\n    pass\nelif DEBUG{i}:\n    v{i} = 0.5\nelse:\n    v{i} = 1.5')
+    p.expr = f'v{i}'
+
+
+@carrier('closure_default_twice')
+def _(p, i):
+    # one nested def, two closures with different defaults: per-closure, not per-node
+    p.add(f'def mk{i}(fmt):\n    def wr{i}(data, using=fmt):\n        return using\n    return wr{i}')
+    p.add(f'wa{i} = mk{i}(0.5)')
+    p.add(f'wb{i} = mk{i}({p.expr})')
+    p.add(f'ra{i} = wa{i}(1)')
+    p.expr = f'wb{i}(2)'
+
+
+@carrier('star_chain')
+def _(p, i):
+    p.files[f'base{i}.py'] = list(p.main) + [(f'val{i} = {p.expr}', p.owner)]
+    p.files[f'impl{i}.py'] = [(f'from base{i} import *', p.owner), (f'own{i} = 1', p.owner)]
+    p.files[f'api{i}.py'] = [(f'from impl{i} import *', p.owner)]
+    p.main = [(f'import api{i}', p.owner)]
+    p.expr = f'api{i}.val{i}'
+
+
+@carrier('global_rebind_fn')
+def _(p, i):
+    # the function that declares the global also rebinds it; uses are outside that function
+    p.add(f'total{i} = 0.5')
+    p.add(f'def bump{i}(q):\n    global total{i}\n    total{i} = q')
+    p.add(f'def peek{i}():\n    return total{i}')
+    p.add(f'bump{i}({p.expr})')
+    p.expr = f'peek{i}()'
+    p.branching = True
 
 
 CARRIER_MAP = dict(CARRIERS)
